@@ -266,6 +266,7 @@ type RigR struct {
 	evSeen    int
 	evRecv    int
 	resets    map[*msgstream.MsgPack][][2]uint64 // pack -> ranges of timestamps its messages were re-stamped to
+	mapSeen   map[string]string // channel assignment table as first observed (C16: an assignment never changes)
 	noteMu    sync.Mutex
 	lockOrder map[string][]lockNote // downstream channel -> closing ticks in the order computed under the channel lock
 }
@@ -442,6 +443,7 @@ func (r *RigR) run() {
 	for s.Step < sc.Knobs.MaxSteps {
 		s.Settle()
 		r.noteEvents()
+		r.checkMappingStep()
 		acts := r.actions(false)
 		nonClock := len(acts)
 		acts = append(acts, r.clockActions()...)
@@ -463,6 +465,7 @@ func (r *RigR) run() {
 	for idle < 120 && drainSteps < 6000 {
 		s.Settle()
 		r.noteEvents()
+		r.checkMappingStep()
 		acts := r.actions(true)
 		if len(acts) == 0 {
 			idle++
@@ -562,6 +565,18 @@ func (r *RigR) actions(drain bool) []Action {
 		}
 		if o.op.AfterColl != 0 {
 			if dep := r.opState("start", o.op.AfterColl); dep == nil || !dep.done || dep.err != nil {
+				continue
+			}
+		}
+		if r.sim.Plan.Prop == "C16" && o.op.Kind == "start" {
+			// offers are serialised: one StartReadCollection in flight (keeps the unbuffered wait/forward rendezvous replayable)
+			busy := false
+			for _, x := range r.ops {
+				if x.op.Kind == "start" && x.issued && !x.done {
+					busy = true
+				}
+			}
+			if busy {
 				continue
 			}
 		}
@@ -803,4 +818,55 @@ func summarize(x msgstream.TsMsg) *EmMsg {
 		e.Type = "other:" + x.Type().String()
 	}
 	return e
+}
+
+// checkMappingStep: C16 invariants on the manager's channel assignment table after every step.
+func (r *RigR) checkMappingStep() {
+	s := r.sim
+	table, srcKey, sc, tc := reader.VerifChannelTable(r.mgr)
+	if table == nil {
+		return
+	}
+	if r.mapSeen == nil {
+		r.mapSeen = map[string]string{}
+	}
+	perValue := map[string]int{}
+	for k, v := range table {
+		if old, ok := r.mapSeen[k]; ok && old != v {
+			s.Violate("C16", "assignment_changed", "channel %s was assigned to %s and is now assigned to %s", k, old, v)
+		}
+		r.mapSeen[k] = v
+		perValue[v]++
+	}
+	for k := range r.mapSeen {
+		if _, ok := table[k]; !ok {
+			s.Violate("C16", "assignment_lost", "the assignment of channel %s disappeared", k)
+		}
+	}
+	larger, smaller := sc, tc
+	if tc > sc {
+		larger, smaller = tc, sc
+	}
+	quota := 1
+	if smaller > 0 {
+		quota = (larger + smaller - 1) / smaller
+	}
+	for v, n := range perValue {
+		if n > quota {
+			side := "downstream"
+			if !srcKey {
+				side = "source"
+			}
+			s.Violate("C16", "quota", "%s channel %s serves %d channels of the other side; with %d source and %d downstream channels the limit is %d", side, v, n, sc, tc, quota)
+		}
+		if n == quota && quota > 1 {
+			s.Probe("quota_reached")
+		}
+	}
+	if len(table) >= 2 {
+		s.Probe("two_or_more_assignments")
+	}
+	if sc != tc && sc != 0 {
+		s.Probe("unequal_counts")
+	}
 }
